@@ -181,6 +181,9 @@ class Cache:
             res.limit = None
             res.group_by = set()
             res.is_summarized = False
+            # the WHERE clause of the right table of an inner join becomes part of the
+            # WHERE clause of the join
+            res.is_filtered = self.is_filtered or (node.how == "inner" and right_cache.is_filtered)
 
         elif isinstance(node, verbs.Union):
             assert right_cache is not None
